@@ -59,6 +59,8 @@ try: _prev = json.load(open('/verif/seeded/%s/meta.json' % tag)).get('confirmed_
 except Exception: pass
 if os.environ.get('SEED_DEMO_ONLY'):
     res['checks'] = _prev; checks = []
+elif os.environ.get('SEED_KEEP_OTHER_CHECKS'):
+    res['checks'] = {k: v for k, v in _prev.items() if k not in checks}
 for c in checks:
     t = time.time()
     rc, o = sh('VERIF_REPO=%s ./check %s 2>&1 | tail -5' % (wt, c), cwd='/verif', timeout=5400)
